@@ -70,9 +70,61 @@ fn replay_doc(args: &[String]) {
                 reps.get_mut(&k).unwrap().merge(&mut base).unwrap();
             }
         }
+        // change id (start op counter, actor) -> hash, for historical reads
+        let mut chash: BTreeMap<(i64, i64), automerge::ChangeHash> = BTreeMap::new();
+        if with_list {
+            if let Some(c) = reps[&1].get_changes(&[]).first() {
+                chash.insert((1, 1), c.hash());
+            }
+        }
         for (si, step) in beh.as_array().unwrap().iter().enumerate() {
             nsteps += 1;
             let r = step["r"].as_i64().unwrap();
+            if let Some(hreads) = step.get("hreads").and_then(|h| h.as_array()) {
+                // historical reads at every antichain the specification enumerated
+                for hr in hreads {
+                    let heads: Vec<automerge::ChangeHash> = hr["heads"].as_array().unwrap().iter()
+                        .filter_map(|h| chash.get(&(h[0].as_i64().unwrap_or(0), h[1].as_i64().unwrap_or(0))).copied()).collect();
+                    if heads.len() != hr["heads"].as_array().unwrap().len() {
+                        mism.push(json!({"behaviour": nb - 1, "step": si, "fields": ["harness-unknown-change"], "expected": hr, "got": "?", "line": beh}));
+                        continue;
+                    }
+                    let got = catch_unwind(AssertUnwindSafe(|| {
+                        let v = proj::view(&reps[&r], Some(&heads));
+                        let f = reps[&r].fork_at(&heads).map(|f| (enc::hashes_sorted(&f.get_heads()), proj::view(&f, None)));
+                        (v, f)
+                    }));
+                    match got {
+                        Ok((v, f)) => {
+                            let mut bad = vec![];
+                            if canon_view(&v) != canon_view(&hr["exp"]) {
+                                bad.push("view_at");
+                            }
+                            match f {
+                                Ok((fh, fv)) => {
+                                    if fh != enc::hashes_sorted(&heads) {
+                                        bad.push("fork_heads");
+                                    }
+                                    if canon_view(&fv) != canon_view(&hr["exp"]) {
+                                        bad.push("fork_view");
+                                    }
+                                }
+                                Err(_) => bad.push("fork_err"),
+                            }
+                            if !bad.is_empty() {
+                                mism.push(json!({"behaviour": nb - 1, "step": si, "fields": bad, "expected": hr, "got": {"view": v}, "line": beh}));
+                                break;
+                            }
+                        }
+                        Err(p) => {
+                            mism.push(json!({"behaviour": nb - 1, "step": si, "fields": ["panic"], "expected": hr, "got": world::panic_msg(p), "line": beh}));
+                            break;
+                        }
+                    }
+                }
+                continue;
+            }
+            let mut newchange: Option<((i64, i64), automerge::ChangeHash)> = None;
             let res = catch_unwind(AssertUnwindSafe(|| {
                 let res;
                 if let Some(s) = step.get("merge").and_then(|m| m.as_i64()) {
@@ -82,11 +134,19 @@ fn replay_doc(args: &[String]) {
                     let d = reps.get_mut(&r).unwrap();
                     let mut tx = d.transaction();
                     let out = calls::exec(&mut tx, &step["call"]);
-                    tx.commit_with(CommitOptions::default().with_time(0));
+                    let (h, _) = tx.commit_with(CommitOptions::default().with_time(0));
+                    if let Some(h) = h {
+                        if let Some(c) = d.get_change_by_hash(&h) {
+                            newchange = Some(((c.start_op().get() as i64, r), h));
+                        }
+                    }
                     res = out["res"].as_str().unwrap_or("?").to_string();
                 }
                 (res, proj::view(&reps[&r], None))
             }));
+            if let Some((k, h)) = newchange {
+                chash.insert(k, h);
+            }
             match res {
                 Ok((res, view)) => {
                     let mut bad = vec![];
